@@ -174,6 +174,11 @@ def generate(ctx):
             extras = []
             for _ in range(rng.choice([0, 1, 2])):
                 t = rng.choice([0, 0, 24, 96, rng.randint(0, 150)])
+                if notes and rng.random() < 0.4:
+                    # on the very tick where a note of this sequence starts or stops (same-tick order then depends on how it was entered)
+                    n0 = rng.choice(notes)
+                    t = rng.choice([n0[2], n0[2] + n0[3]])
+                    ctx.count("signature-on-a-note-tick")
                 kind = rng.choice([TIMESIG, KEYSIG])
                 if (kind, t) in used:
                     continue
